@@ -7,6 +7,7 @@ package fbb
 import (
 	"bufio"
 	"bytes"
+	"unicode/utf8"
 
 	"github.com/paulrosania/go-charset/charset"
 	_ "github.com/paulrosania/go-charset/data"
@@ -27,7 +28,7 @@ func StringToBody(str, encoding string) ([]byte, error) {
 		line = in.Bytes()
 		for {
 			// Lines can not be longer that 1000 characters including CRLF.
-			n := min(len(line), 1000-2)
+			n := wrapAt(line, 1000-2)
 
 			out.Write(line[:n])
 			out.WriteString("\r\n")
@@ -51,11 +52,18 @@ func StringToBody(str, encoding string) ([]byte, error) {
 	return translated, err
 }
 
-func min(a, b int) int {
-	if a < b {
-		return a
+// wrapAt returns the number of bytes of line (UTF-8) to put on a line of at most max bytes,
+// without splitting a multi-byte character.
+func wrapAt(line []byte, max int) int {
+	if len(line) <= max {
+		return len(line)
 	}
-	return b
+	for n := max; n > max-utf8.UTFMax && n > 0; n-- {
+		if utf8.RuneStart(line[n]) {
+			return n
+		}
+	}
+	return max // Not valid UTF-8.
 }
 
 // BodyFromBytes translated the data based on the given charset encoding into a proper utf-8 string.
